@@ -22,6 +22,7 @@ func init() {
 	reg("C13", "C13.N", "E5", "no receiver-dereferencing node method on a possibly-nil Dig result", 1, ruleNilNodes)
 	reg("C13", "C13.M", "E1+E2", "metric label values (taken from event fields) are made valid UTF-8 before they reach a panicking prometheus Vec method", 4, ruleMetricLabelsSanitized)
 	reg("C13", "C13.D", "E2", "no integer division or remainder by a value that may be zero (reviewed table otherwise)", 1, ruleActionDivisions)
+	reg("C13", "C13.J", "E2", "the time-out exit of a joining action is unreachable: busy results only while the joining flag is true (same rule as C15.R7)", 1, ruleBusyOnlyWhileJoining)
 }
 
 // coreType: receiver types of package pipeline that are the engine itself, not helpers.
@@ -84,6 +85,20 @@ func (c *Ctx) actionScope() []*ssa.Function {
 							for _, e := range n.Out {
 								if e.Site == ci && e.Callee.Func != nil {
 									visit(e.Callee.Func)
+								}
+							}
+						}
+						continue
+					}
+					if cc.StaticCallee() == nil {
+						// call through a function value (a check function kept in the configuration, a callback):
+						// every address-taken module function of that signature (CHA), the safe direction
+						if _, isBuiltin := cc.Value.(*ssa.Builtin); !isBuiltin {
+							if n := cg.Nodes[f]; n != nil {
+								for _, e := range n.Out {
+									if e.Site == ci && e.Callee.Func != nil {
+										visit(e.Callee.Func)
+									}
 								}
 							}
 						}
